@@ -34,3 +34,60 @@ class K04a(Harness):
         if detail.get("kind") == "exception":
             return "exception:%s@%s" % (detail.get("type"), (detail.get("where") or ["?"])[-1])
         return "roundtrip"
+
+
+import sys
+
+import vsg.vhdlFile.vhdlFile  # noqa: F401,E402
+from vsg import parser  # noqa: E402
+from vsg.token import delimited_comment  # noqa: E402
+
+VFM = sys.modules["vsg.vhdlFile.vhdlFile"]
+
+
+@register
+class K04c(Harness):
+    name = "K04c"
+    prop = "C04"
+    title = "line pipeline: tokens.create + blank/whitespace/comment/preprocessor/pragma classification of one line give back the line, inside and outside a delimited comment"
+    functions = ("vsg.tokens", "vsg.vhdlFile.vhdlFile", "vsg.vhdlFile.classify.blank", "vsg.vhdlFile.classify.whitespace", "vsg.vhdlFile.classify.comment", "vsg.vhdlFile.classify.preprocessor", "vsg.vhdlFile.classify.pragma", "vsg.parser")
+    stubs = ("design_file.tokenize and the post passes (token assignments, hierarchy, todo/aggregate tokens, code tags) are skipped: what runs is vhdlFile._processFile's per-line loop and get_lines",)
+    bounds = "a two-line file: concrete first line that does / does not open a delimited comment, second line = every string of N characters (N<=2 quick, <=3 thorough) over U+0000..U+00FF except LF/CR; default pragma patterns (symbolic regex matcher)"
+    outside = "longer lines; interaction of three or more lines"
+    assumptions = K04a.assumptions
+
+    def params(self, tier):
+        return [{"N": n, "open": o} for n in ([0, 1, 2] if tier == "quick" else [0, 1, 2, 3]) for o in (False, True)]
+
+    def run(self, eng, p):
+        line = eng.str("s", p["N"])
+        first = "/* x" if p["open"] else "-- y"
+        saved = (VFM.design_file, VFM.post_token_assignments, VFM.set_token_hierarchy_value, VFM.set_todo_tokens, VFM.set_aggregate_tokens, VFM.set_code_tags)
+
+        class DF:
+            @staticmethod
+            def tokenize(l):
+                return None
+
+        VFM.design_file = DF
+        VFM.post_token_assignments = VFM.set_token_hierarchy_value = VFM.set_todo_tokens = VFM.set_aggregate_tokens = VFM.set_code_tags = lambda l: None
+        try:
+            o = VFM.vhdlFile([first, line])
+        finally:
+            (VFM.design_file, VFM.post_token_assignments, VFM.set_token_hierarchy_value, VFM.set_todo_tokens, VFM.set_aggregate_tokens, VFM.set_code_tags) = saved
+        lines = o.get_lines()
+        clauses = [("line_count", len(lines) == 3), ("first_line_kept", core.Eq(lines[1], first))]
+        if len(lines) == 3:
+            clauses.append(("line_roundtrip", core.Eq(lines[2], line)))
+        clauses.append(("tokens_are_items_with_text", all(isinstance(t, parser.item) and isinstance(t.value, (str, core.SymStr)) for t in o.lAllObjects)))
+        return clauses
+
+    def describe(self, values, p):
+        return {"first_line": "/* x" if p["open"] else "-- y", "second_line": "".join(chr(values.get("s[%d]" % i, 32)) for i in range(p["N"]))}
+
+    def signature(self, values, p, detail):
+        if detail.get("kind") == "exception":
+            return "exception:%s@%s" % (detail.get("type"), (detail.get("where") or ["?"])[-1])
+        s = self.describe(values, p)["second_line"]
+        shape = "".join("/" if c == "/" else "*" if c == "*" else "w" if c.isspace() else "x" for c in s)
+        return "vc:%s:%s:%s" % (",".join(sorted(detail.get("failed", []))), "in_comment" if p["open"] else "plain", shape)
